@@ -68,7 +68,7 @@ func TestC12GoldilocksScalar(t *testing.T) {
 					sliver := new(big.Int).Sub(kit.Pow2(448), kit.Pow2(230))
 					class := "wrong-result"
 					if xv.Cmp(sliver) >= 0 || yv.Cmp(sliver) >= 0 {
-						class = "wrong-result-operand-above-2^448-2^230"
+						class = "wrong-result-top-sliver"
 					}
 					c.Fail(class, fmt.Sprintf("got 0x%x want 0x%x", got, w))
 					return
